@@ -139,6 +139,30 @@ def reader(fn: ast.FunctionDef) -> dict[str, Any]:
         if not (isinstance(loop.test, ast.Constant) and loop.test.value is True):
             raise TranslateError(f'{w}: the block loop is not `while True`')
         names = [e.id for e in first.targets[0].elts]       # type: ignore[attr-defined]
+        # plain renames of the header values inside the loop (`a = b`, `a, b = c, d` with names assigned once inside the loop): read through them
+        alias: dict[str, str] = {}
+        for st in loop.body[1:]:
+            if isinstance(st, ast.Assign) and len(st.targets) == 1:
+                tg, val = st.targets[0], st.value
+                pairs = list(zip(tg.elts, val.elts)) if isinstance(tg, ast.Tuple) and isinstance(val, ast.Tuple) and len(tg.elts) == len(val.elts) \
+                    else [(tg, val)]
+                if all(isinstance(a, ast.Name) and isinstance(b, ast.Name) for a, b in pairs):
+                    srcs = {b.id for _, b in pairs}         # type: ignore[attr-defined]
+                    for a, b in pairs:
+                        if alias.get(b.id, b.id) in names and a.id not in srcs and a.id not in names and \
+                                sum(1 for n in ast.walk(loop) if isinstance(n, ast.Name) and n.id == a.id and isinstance(n.ctx, ast.Store)) == 1:
+                            alias[a.id] = alias.get(b.id, b.id)         # type: ignore[attr-defined]
+        if alias:
+            class R(ast.NodeTransformer):
+                def visit_Name(self, node: ast.Name) -> ast.AST:
+                    if isinstance(node.ctx, ast.Load) and node.id in alias:
+                        return ast.copy_location(ast.Name(id=alias[node.id], ctx=ast.Load()), node)
+                    return node
+            import copy
+            loop = copy.deepcopy(loop)
+            loop.body = [loop.body[0]] + [R().visit(st) for st in loop.body[1:]
+                                          if not (isinstance(st, ast.Assign) and all(isinstance(x, ast.Name) and x.id in alias for x in
+                                                  (st.targets[0].elts if isinstance(st.targets[0], ast.Tuple) else [st.targets[0]])))]
         role: dict[str, str] = {}
         sent = None
         segs: list[tuple[tuple[int, int], str]] = []
